@@ -165,9 +165,10 @@ static void do_dispatch(const std::string &line, const J &in, FILE *out) {
 }
 
 // ---------------------------------------------------------------- walk (C09) + lookup (C18)
-struct WalkRec { int id; std::string addr; };
+struct WalkRec { int id; std::string addr; long part_off; };
 static std::vector<WalkRec> walked;
-static void walker(const Port *p, const char *name, const char *, const Ports &, void *, void *) { walked.push_back({port_ids.count(p) ? port_ids[p] : -1, name}); }
+static void walker(const Port *p, const char *name, const char *old_end, const Ports &, void *, void *) { size_t n = strlen(name);
+    walked.push_back({port_ids.count(p) ? port_ids[p] : -1, name, (old_end >= name && old_end <= name + n) ? (long)(old_end - name) : -1L}); }
 
 static void do_walk(const std::string &line, const J &in, FILE *out) {
     const J &tb = in["table"]; std::vector<int> none;
@@ -186,7 +187,7 @@ static void do_walk(const std::string &line, const J &in, FILE *out) {
             walked.clear(); int h0 = vg_asan_hits;
             walk_ports(&root->ports, buf, sizeof buf, nullptr, walker, true, use_rt ? (void *)&root_obj : nullptr, false);
             w.obj().kbytes("prefix", (const uint8_t *)PREF[pf], strlen(PREF[pf])).kbytes("after", (const uint8_t *)buf, strnlen(buf, sizeof buf));
-            w.key("walked").arr(); for (auto &r : walked) { w.obj().knum("id", r.id).kbytes("addr", (const uint8_t *)r.addr.data(), r.addr.size()).end_obj(); } w.end_arr();
+            w.key("walked").arr(); for (auto &r : walked) { w.obj().knum("id", r.id).kbytes("addr", (const uint8_t *)r.addr.data(), r.addr.size()).knum("part_off", r.part_off).end_obj(); } w.end_arr();
             // every reported address, sent as a message, must reach the port it was reported with; and lookup must return it
             w.key("reach").arr();
             if (pf < 2 && !(in.has("multi") && in["multi"].b)) for (auto &r : walked) {
@@ -255,7 +256,7 @@ static void do_walksugar(const std::string &line, const J &in, FILE *out) {
             walked.clear(); int h0 = vg_asan_hits;
             walk_ports(&W::ports, buf, sizeof buf, nullptr, walker, true, use_rt ? (void *)&app : nullptr, false);
             w.obj().kbytes("prefix", (const uint8_t *)PREF[pf], strlen(PREF[pf])).kbytes("after", (const uint8_t *)buf, strnlen(buf, sizeof buf));
-            w.key("walked").arr(); for (auto &r : walked) { w.obj().knum("id", r.id).kbytes("addr", (const uint8_t *)r.addr.data(), r.addr.size()).end_obj(); } w.end_arr();
+            w.key("walked").arr(); for (auto &r : walked) { w.obj().knum("id", r.id).kbytes("addr", (const uint8_t *)r.addr.data(), r.addr.size()).knum("part_off", r.part_off).end_obj(); } w.end_arr();
             w.key("reach").arr().end_arr().knum("asan", vg_asan_hits - h0).end_obj();
         } });
     w.end_arr().knum("sig", sig).kstr("asan_what", vg_asan_first).end_obj();
